@@ -603,7 +603,7 @@ func runC12(c *fw.Ctx) {
 		})
 	})
 	// random values of every numeric type
-	c.Cases("random", c.N(100000, 2000000)/40, false, func(i int, r *rng.R) {
+	c.Cases("random", c.N(100000, 20000000)/40, false, func(i int, r *rng.R) {
 		c.DistinctHash(r.U64())
 		for j := 0; j < 40; j++ {
 			ep := entryPoints[r.Intn(neps)]
